@@ -23,7 +23,25 @@ SAFE_METHODS = {
     tuple: {"index", "count"},
     set: {"add", "union", "copy", "difference", "intersection", "issubset"},
 }
-EXTERNAL = {"itertools.chain": lambda *a: list(itertools.chain(*a)), "warnings.warn": lambda *a, **k: None}
+def _frame(*a, **k):
+    from .framemodel import Frame
+
+    return Frame.build(*a, **k)
+
+
+EXTERNAL = {
+    "itertools.chain": lambda *a: list(itertools.chain(*a)),
+    "warnings.warn": lambda *a, **k: None,
+    "numpy.zeros": lambda n, dtype=float: [0.0] * n,
+    "pandas.DataFrame": _frame,
+}
+
+
+class FuncRef:
+    """A package function used as a value (e.g. handed to map)."""
+
+    def __init__(self, fn: FuncInfo):
+        self.fn = fn
 
 
 class Interp:
@@ -36,6 +54,7 @@ class Interp:
         self.depth = 0
         self.max_depth = max_depth
         self.calls: List[Tuple[str, Dict[str, Any]]] = []  # (qualname, bound arguments) of every package call seen
+        self.module_globals: Dict[str, Dict[str, Any]] = {}
 
     # ------------------------------------------------------------------ calling
     def bind(self, fn: FuncInfo, args: Sequence[Any], kwargs: Dict[str, Any], selfobj=None) -> Dict[str, Any]:
@@ -81,7 +100,15 @@ class Interp:
         ev.loops = True
         ev.with_binds_value = True
         ev.fn = fn  # type: ignore[attr-defined]
+        ev.globals_env = self.module_globals.setdefault(fn.unit.modname, {})
+        ev.on_name = self.on_name
         return ev
+
+    def on_name(self, ev, e: ast.Name):
+        sym = self.prog.resolve(ev.fn.unit, e.id)
+        if isinstance(sym, FuncInfo) and (sym.qualname in self.follow or sym.qualname in self.stubs):
+            return FuncRef(sym)
+        return NotImplemented
 
     def call(self, fn: FuncInfo, args: Sequence[Any] = (), kwargs: Optional[Dict[str, Any]] = None, selfobj=None):
         self.depth += 1
@@ -209,6 +236,19 @@ class Interp:
                         nt = namedtuple(g[-1].args[0].value, [e.value for e in g[-1].args[1].elts])  # type: ignore[attr-defined]
                         args, kwargs = self.args_of(ev, c)
                         return nt(*args, **kwargs)
+        if isinstance(f, ast.Name) and f.id == "map" and len(c.args) == 2:
+            target = ev.eval(c.args[0])
+            if isinstance(target, FuncRef):
+                items = ev.eval(c.args[1])
+                if isinstance(items, Opaque):
+                    raise Unknown("map over an opaque iterable")
+                out = []
+                for x in list(items):
+                    if target.fn.qualname in self.stubs:
+                        out.append(self.stubs[target.fn.qualname](self, ev, c, [x], {}))
+                    else:
+                        out.append(self.call(target.fn, [x], {}))
+                return out
         # 2. callables of the stand-in world
         if isinstance(f, ast.Attribute):
             recv = ev.eval(f.value)
